@@ -14,7 +14,9 @@ Ties (all against the working tree of /repo):
  (b) through the compiler: an entity `inp -> from_bits[T] -> leaves on ports, -> to_bits -> rt` and
      `leaf ports -> constructors (every construction path, plus field-wise assignment to a default-constructed
      Variable, T(Null), T(Full)) -> to_bits -> ser / ser_<path>` is compiled, the emitted VHDL simulated on all / sampled
-     patterns: the emitted logic must implement the same layout.
+     patterns: the emitted logic must implement the same layout.  Snapshot forms (every compiled type): the value is held in a
+     Variable, serialised, the Variable is REASSIGNED, then the bits are used - they must be the value at the call; from_bits
+     results must not alias their argument; and (one composition per kind) bits taken in one coroutine state and used in a later one.
  (c) BitField: generated declarations (bits, ranges typed BitVector/Unsigned/Signed, nested sub-bitfields at
      offsets): every field read and every field write (on a Variable inside a compiled design and on constants)
      against `readPath` / `writePath`.
@@ -836,6 +838,7 @@ def fixed_types():
         ["sarr", ["enum", "E8", ["uns", 2], [1, 3], False], 3],
         R("A11", [["sfix", 3, -1], ["ufix", 2, 0], ["bit"]]),
         ["ser", R("A12", [["bit"], ["uns", 3]])], ["ser", ["sarr", ["uns", 2], 2]], ["ser", ["uns", 3]],
+        ["ser", ["sfix", 3, -1]], ["ser", ["ufix", 2, 1]],
     ]
     return out
 
@@ -1079,6 +1082,100 @@ def eval_sim(types, pats, model):
 
 
 # ---------------------------------------------------------------------------------------------------
+# snapshot across coroutine states: `snap = to_bits(sig)` in one state, used in a later state while sig keeps changing.
+# cohdl may reject the design ("Temporary objects may not be shared between states") - no claim then; when it accepts it,
+# the bits used later must be the value at the point of the call
+# ---------------------------------------------------------------------------------------------------
+
+
+def co_source(ty):
+    inner = ty[1] if ty[0] == "ser" else ty
+    W = width(ty)
+    take = "std.Serialized[TOP](sample).bits()" if ty[0] == "ser" else "std.to_bits(sample)"
+    return type_module_source(inner) + f"""
+
+class C17Co(cohdl.Entity):
+    clk = Port.input(Bit)
+    a = Port.input(BitVector[{W}])
+    start = Port.input(Bit)
+    ready = Port.input(Bit)
+    outp = Port.output(BitVector[{W}])
+
+    def architecture(self):
+        sample = std.from_bits[TOP](BitVector[{W}](Null), std.Signal)
+
+        @std.sequential(std.Clock(self.clk))
+        def track():
+            nonlocal sample
+            sample <<= std.from_bits[TOP](self.a)
+
+        @std.sequential(std.Clock(self.clk))
+        async def proc():
+            await self.start
+            snap = {take}
+            await self.ready
+            self.outp <<= snap
+"""
+
+
+def co_sim_task(item):
+    vhdl, W, pairs = item
+    out = []
+    for A, B in pairs:
+        d = Design17(vhdl)
+        for n in ("clk", "a", "start", "ready"):
+            d.set(n, 0)
+        d.initialise()
+        d.set("a", A)
+        d.settle(); d.clock("clk"); d.clock("clk")          # sample = A
+        d.set("start", 1)
+        d.settle(); d.clock("clk")                           # the state that takes the snapshot
+        d.set("start", 0)
+        d.set("a", B)
+        d.settle(); d.clock("clk"); d.clock("clk"); d.clock("clk")   # sample = B
+        d.set("ready", 1)
+        d.settle(); d.clock("clk"); d.clock("clk")
+        x = d.get("outp")
+        out.append("-" if x is None else format(x, f"0{W}b"))
+    return out
+
+
+def check_coroutine_snapshots(types):
+    """-> (mismatch list per type, number accepted)"""
+    comp = compile_many([(co_source(t), "C17Co") for t in types])
+    tasks, idx = [], []
+    for i, (t, c) in enumerate(zip(types, comp)):
+        if c["ok"]:
+            W = width(t)
+            full = (1 << W) - 1
+            pairs = [(0, full), (full, 0)] + ([(1, full ^ 1), (1 << (W - 1), 1)] if W > 1 else [])
+            tasks.append((c["vhdl"], W, pairs))
+            idx.append((i, pairs))
+    res = fork_map(co_sim_task, tasks, fresh=False, chunk=2)
+    out = [[] for _ in types]
+    for (i, pairs), r in zip(idx, res):
+        W = width(types[i])
+        if r[0] != "ok":
+            out[i].append(("coroutine snapshot: simulate", "-", "executable VHDL", r[1][:200]))
+            continue
+        for (A, B), got in zip(pairs, r[1]):
+            exp = format(A, f"0{W}b")
+            if got != exp:
+                out[i].append(("coroutine snapshot: bits taken in one state, used in a later state after the source signal changed",
+                               f"{exp} then {format(B, f'0{W}b')}", exp, got))
+    return out, len(tasks)
+
+
+def co_types():
+    """one small composition per kind"""
+    R = lambda name, fs: ["rec", name, fs, ["flat"]]
+    base = [["bit"], ["bool"], ["bv", 3], ["uns", 3], ["sgn", 3], ["sfix", 3, -1], ["ufix", 3, 0], ["arr", ["bv", 2], 2], ["sarr", ["uns", 2], 2],
+            R("C1", [["bit"], ["uns", 2]]), R("C2", [["sfix", 2, -1], ["bit"]]), ["enum", "CE1", ["uns", 3], [1, 5], False],
+            ["sarr", ["sfix", 2, 0], 2]]
+    return base + [["ser", ["sfix", 3, -1]], ["ser", ["uns", 3]], ["ser", R("C3", [["bit"], ["uns", 2]])]]
+
+
+# ---------------------------------------------------------------------------------------------------
 # shrinking a failing type
 # ---------------------------------------------------------------------------------------------------
 
@@ -1127,6 +1224,8 @@ def shrink_candidates(ty):
         if k != "bv":
             yield ["bv", ty[1]]
     elif k in ("sfix", "ufix"):
+        if ty[2] != 0:
+            yield [k, ty[1], 0]
         if ty[1] > 1:
             yield [k, ty[1] - 1, ty[2]]
     elif k == "bool":
@@ -1672,6 +1771,21 @@ def run(ctx: Ctx):
     ctx.obligation("correspondence (b): emitted round-trip entity (from_bits leaves, to_bits of from_bits, to_bits of constructed value) = Lean model on all driven patterns",
                    n_sim == 0, detail=f"{len(types)} designs, {n_sim} mismatches")
 
+    # ---- snapshots across coroutine states
+    cts = co_types()
+    cmm, n_acc = check_coroutine_snapshots(cts)
+    n_co = 0
+    for t, mm in zip(cts, cmm):
+        ctx.case(key=("co", ty_short(t)), nontrivial=True, kind="level:coroutine-snapshot")
+        n_co += len(mm)
+        if mm and reported < 6:
+            reported += 1
+            what, p, exp, obs = mm[0]
+            ctx.report(f"co:{ty_short(t)}", f"compiled {what}: {ty_short(t)}, source {p}: the value at the point of the call is `{exp}`, the emitted logic delivers `{obs}`",
+                       {"level": "co", "type": t, "what": what, "input": p, "expected": exp, "observed": obs, "source": co_source(t)})
+    ctx.obligation("correspondence (b2): to_bits taken in one coroutine state and used in a later one is either rejected or delivers the value at the point of the call",
+                   n_co == 0, detail=f"{len(cts)} designs, {n_acc} accepted by the compiler, {n_co} mismatches")
+
     # ---- BitFields
     bg = BfGen(rng)
     bfs = fixed_bitfields() + [bg.bf(rng.randint(2, ctx.scale(8, 10)), rng.randint(0, 2)) for _ in range(ctx.scale(9, 60))]
@@ -1701,6 +1815,12 @@ def replay(ctx, data):
     SIM_ALL_MODES = BF_ALL_FORMS = True
     r = data["replay"]
     rng = __import__("random").Random(0)
+    if r["level"] == "co":
+        mm, n_acc = check_coroutine_snapshots([r["type"]])
+        print("type     :", ty_short(r["type"]), "accepted" if n_acc else "rejected by the compiler")
+        for m in mm[0]:
+            print("mismatch : %s at %s: expected %s observed %s" % m)
+        return 1 if mm[0] else 0
     if r["level"] == "bf":
         mm, pats, srcs = check_bitfields([r["bitfield"]], r.get("bound", 8), rng, 24)
         for m in mm[0][:10]:
